@@ -34,6 +34,9 @@ type c07Plan struct {
 	Extra            []verifgen.Entry
 	SnapAfterRestart bool
 	RestoreInChild   bool
+	// JSON: the node runs with -pre1.0_protobuf=false (entries and stores are JSON encoded;
+	// the marked entry is still written in the protobuf form)
+	JSON bool
 }
 
 // TestVerifC07Child applies the plan's entries through the real FSM with the
@@ -51,6 +54,7 @@ func TestVerifC07Child(t *testing.T) {
 	if err := json.Unmarshal(b, &plan); err != nil {
 		t.Fatal(err)
 	}
+	verifStoreProto = !plan.JSON
 	f := newFixture(filepath.Join(dir, "node"))
 	w := bufio.NewWriter(os.Stdout)
 	for i := range plan.Entries {
@@ -145,6 +149,7 @@ func c07MakePlan(seed int64) (*c07Plan, bool) {
 	case 1:
 		plan.SnapAfterRestart = true
 	}
+	plan.JSON = rng.Intn(4) == 0
 	return plan, true
 }
 
@@ -183,6 +188,8 @@ func c07Run(rep *verifrep.R, dir string, plan *c07Plan, sample bool) {
 		pw.Entries, pw.Extra = nil, nil
 		rep.Violation("C07", key, what, map[string]interface{}{"plan": pw, "crash_entry": plan.Entries[plan.CrashAt]})
 	}
+	verifStoreProto = !plan.JSON
+	defer func() { verifStoreProto = true }()
 	pb, _ := json.Marshal(plan)
 	os.WriteFile(filepath.Join(dir, "plan.json"), pb, 0644)
 	cmd := exec.Command(os.Args[0], "-test.run", "^TestVerifC07Child$")
@@ -210,7 +217,7 @@ func c07Run(rep *verifrep.R, dir string, plan *c07Plan, sample bool) {
 		viol("continued-after-panic", "the node reported the crashing entry as applied")
 	}
 	// the durable raft log: exactly the crashing entry is typed message-of-death
-	logstore, err := raftstore.NewLevelDBStore(filepath.Join(dir, "node", "raftlog"), false, true)
+	logstore, err := raftstore.NewLevelDBStore(filepath.Join(dir, "node", "raftlog"), false, verifStoreProto)
 	if err != nil {
 		viol("log-unreadable", err.Error())
 		return
